@@ -255,6 +255,7 @@ impl ConnS {
     pub fn send_close(&mut self, writer: &mut TransportS, error: Option<AmqpError>) -> (r: Result<(), ConnectionStateError>)
         ensures
             r is Ok ==> final(writer).sent@ == old(writer).sent@.push(close_frame(error)) && final(writer).failures@ == old(writer).failures@,
+            r is Ok ==> final(writer).sent@.drop_last() =~= old(writer).sent@ && final(writer).sent@.last() == close_frame(error) && final(writer).sent@.len() == old(writer).sent@.len() + 1,
             r is Ok ==> (match old(self).st {
                 ConnectionState::Opened => final(self).st == (if error is Some { ConnectionState::Discarding } else { ConnectionState::CloseSent }),
                 ConnectionState::CloseReceived => final(self).st == ConnectionState::End,
@@ -369,7 +370,7 @@ impl ConnectionEngine {
 
 //@@ fn file=fe2o3-amqp/src/connection/engine.rs impl=`~impl<Io,C>ConnectionEngine<Io,C>whereIo:AsyncRead+AsyncWrite+std::fmt::Debug+SendBound+Unpin+'static,C:endpoint::Connection<State=ConnectionState>` name=on_incoming
 //@@ attr #[verifier::loop_isolation(false)]
-//@@ subst `result?;` => `match result { Ok(v) => v, Err(e) => return Err(state_err_into(e)) };` rule=R24
+//@@ qmark
 //@@ subst `SessionFrame::new(channel, ` => `SessionFrame::new(channel.0, ` rule=R16
 //@@ spec
     ensures
@@ -392,8 +393,6 @@ impl ConnectionEngine {
             && (frame.body->Close_0.error is None ==> r == Ok::<Running, ConnectionInnerError>(Running::Stop)),         // [C12.close-completed] the peer's answer to our close ends the connection: nothing more is written
         !(frame.body is Open) && !(frame.body is Close) ==> final(self).heartbeat == old(self).heartbeat,                                         // [C17.heartbeat.not-postponed-by-incoming] receiving frames never re-arms or postpones the heartbeat: the peer's idle time-out is about what WE send
         frame.body is Open && r is Ok && !(old(self).connection.st is Discarding) ==> final(self).heartbeat.period_ms == (match frame.body->Open_0.idle_time_out { Some(ms) => if ms == 0 { None::<u64> } else { Some(ms as u64) }, None => None::<u64> }),   // [C17.heartbeat.from-peer-open] heartbeats are armed from the peer's idle-time-out; 0 or unset means none [C15.open.zero-idle-timeout] (and never a zero period, which would panic the timer)
-//@@ entry
-        let ghost mut smid: Seq<Frame> = Seq::empty();
 //@@ loop 0
         invariant
             self.outgoing_session_frames.closed@,
@@ -405,13 +404,6 @@ impl ConnectionEngine {
                         let ghost sl = self.transport.sent@;
 //@@ loopend 0
                         proof { lemma_extc_trans(old(self).transport.sent@, sl, self.transport.sent@); }
-//@@ at `self.connection .send_close(&mut self.transport, None)` before
-                    proof { smid = self.transport.sent@; }
-//@@ at `match result { Ok(v) => v, Err(e) => return Err(state_err_into(e)) };` before
-                proof {
-                    let s1 = self.transport.sent@;
-                    if s1 == smid.push(close_frame(None)) { assert(s1.drop_last() =~= smid); }
-                }
 //@@ end
 
 //@@ fn file=fe2o3-amqp/src/connection/engine.rs impl=`~impl<Io,C>ConnectionEngine<Io,C>whereIo:AsyncRead+AsyncWrite+std::fmt::Debug+SendBound+Unpin+'static,C:endpoint::Connection<State=ConnectionState>` name=wait_for_remote_close
